@@ -16,6 +16,7 @@ import pymbolic.mapper as mapmod
 from ..core import check, short
 from ..gen import expr as G
 from ..mon.trace import HandlerTrace
+from ..mon.typedkeys import KF_TWINS, has_twins, typed
 from ..ref import normal, refsem
 
 RULE = ("typed random expressions (sorts int / exact rational / bool) over every node type the "
@@ -56,14 +57,34 @@ class RecEnv(dict):
         return dict.__contains__(self, k)
 
 
-def variants(hashable=True):
-    v = [("plain", lambda e, env: EvaluationMapper(env)(e))]
+def _same(cls):
+    return cls
+
+
+def variants(hashable=True, w=_same):
+    """w wraps the mapper class (identity, or the typed-key explanation variant)."""
+    v = [("plain", lambda e, env: w(EvaluationMapper)(env)(e))]
     if hashable:
-        v += [("cached", lambda e, env: CachedEvaluationMapper(env)(e)),
-              ("evaluate", lambda e, env: evaluate(e, env)),
-              ("evaluate_kw", lambda e, env: evaluate_kw(e, **env)),
-              ("evaluate_plaincls", lambda e, env: evaluate(e, env, mapper_cls=EvaluationMapper))]
+        v += [("cached", lambda e, env: w(CachedEvaluationMapper)(env)(e)),
+              ("evaluate", lambda e, env: evaluate(e, env, mapper_cls=w(CachedEvaluationMapper))
+               if w is not _same else evaluate(e, env)),
+              ("evaluate_kw", lambda e, env: evaluate_kw(e, mapper_cls=w(CachedEvaluationMapper), **env)
+               if w is not _same else evaluate_kw(e, **env)),
+              ("evaluate_plaincls", lambda e, env: evaluate(e, env, mapper_cls=w(EvaluationMapper)))]
     return v
+
+
+def twin_finding(objs, rerun):
+    """KF_TWINS iff the input holds ==-but-differently-typed composites AND the same run with
+    typed memo keys (the one change) has no discrepancy."""
+    try:
+        if has_twins(*objs) and rerun():
+            return KF_TWINS
+    except RecursionError:
+        raise
+    except Exception:  # noqa: BLE001
+        pass
+    return None
 
 
 def envs_for(ctx, e, rng, full_limit=2, nsample=24, box=BOX):
@@ -93,9 +114,12 @@ def c_eval(ctx, case):
         ctx.count("variant:" + name)
         ctx.count("outcome:" + want[0])
         if not refsem.consistent(got, want, faults):
+            tfn = dict(variants(hashable, typed))[name]
             ctx.fail("C02.eval", case, f"{name}:{_sig(e, got, want)}",
                      f"variant={name} expr={e} env={_envs(env)} got={short(got)} "
-                     f"want={short(want)} faults={faults}")
+                     f"want={short(want)} faults={faults}",
+                     finding=twin_finding([e], lambda: refsem.consistent(
+                         refsem.outcome(lambda: tfn(e, env), UNK), want, faults)))
 
 
 def _sig(e, got, want):
@@ -128,7 +152,9 @@ def c_effects(ctx, case):
         ctx.count("effects:" + name)
         if not refsem.consistent(got, want, faults):
             ctx.fail("C02.effects", case, f"{name}:value:{_sig(e, got, want)}",
-                     f"expr={e} env={_envs(env)} got={short(got)} want={short(want)}")
+                     f"expr={e} env={_envs(env)} got={short(got)} want={short(want)}",
+                     finding=twin_finding([e], lambda: refsem.consistent(
+                         refsem.outcome(lambda: typed(cls)(dict(env))(e), UNK), want, faults)))
             continue
         if len(faults) > 1:
             continue
@@ -176,9 +202,17 @@ def c_reuse(ctx, case):
             ctx.case(None)
             ctx.count("reuse:" + name)
             if not refsem.consistent(got, want, faults):
+                def rerun(upto=i, cls=cls):
+                    tm = typed(cls)(env)
+                    ok = True
+                    for e2 in exprs[:upto + 1]:
+                        w2, f2, _ = refsem.expected(e2, env)
+                        ok = refsem.consistent(refsem.outcome(lambda: tm(e2), UNK), w2, f2) and ok
+                    return ok
                 ctx.fail("C02.reuse", case, f"{name}:{_sig(e, got, want)}",
                          f"step {i} of history on one {name} evaluator: expr={e} "
-                         f"env={_envs(env)} got={short(got)} want={short(want)}")
+                         f"env={_envs(env)} got={short(got)} want={short(want)}",
+                         finding=twin_finding(exprs[:i + 1], rerun))
 
 
 def inject_fault(rng, e, kind):
@@ -307,8 +341,34 @@ def workload(ctx):
                 ctx.case(normal.typed_key(cont), True, n=0)
                 ctx.run("C02.eval", (cont, env, hashable))
                 ctx.count("container:" + type(cont).__name__)
+        # 6. typed twins: ==-but-differently-typed composites inside ONE evaluation, bare and
+        #    under common-subexpression wrappers, where the type shows in the value (true
+        #    division, ~, shifts, subscripts need ints).  The memo keys conflate them: a known
+        #    finding, judged case by case with its explanation test.
+        X = p.Variable("x")
+        mk = [lambda c: p.Power(c, 3), lambda c: p.Sum((X, c)), lambda c: p.Product((c, X)),
+              lambda c: p.Max((c, 0)), lambda c: p.If(p.Comparison(X, "<", 9), c, 0),
+              lambda c: p.FloorDiv(c, 1), lambda c: p.Sum((c,))]
+        use = [lambda t: p.BitwiseNot(t), lambda t: p.LeftShift(t, 1), lambda t: p.Quotient(t, 2),
+               lambda t: p.Subscript(p.Variable("a"), t), lambda t: p.Comparison(t, "==", 1),
+               lambda t: p.BitwiseAnd((t, 3)), lambda t: t]
+        wrapk = [lambda t: t, lambda t: p.CommonSubexpression(t)]
+        space = list(itertools.product(range(len(mk)), range(len(use)), range(2), range(2),
+                                       [(1, 1.0), (1, True), (1.0, 1), (True, 1), (2, 2.0)]))
+        for im, iu, iw, order, (c1, c2) in space:
+            if not ctx.mine("typed-twins"):
+                continue
+            t1, t2 = wrapk[iw](mk[im](c1)), wrapk[iw](mk[im](c2))
+            e = (t1, use[iu](t2)) if order == 0 else (use[iu](t2), t1)
+            for xv in (0, 1):
+                env = G.base_env(xv, 0, 0)
+                ctx.case(normal.typed_key(e), True, n=0)
+                ctx.count("typed_twin_cases")
+                ctx.run("C02.eval", (e, env, True))
+                ctx.run("C02.reuse", ([t1, use[iu](t2)], env))
         for k, v in tr.handlers().items():
             ctx.count("handler:" + k, v)
+    ctx.floor("typed_twin_cases", 100)
     ctx.floor("variant:plain", 1000)
     ctx.floor("variant:cached", 1000)
     ctx.floor("variant:evaluate_kw", 1000)
